@@ -86,7 +86,12 @@ fn config() -> shuttle::Config {
 }
 
 fn real_main() -> i32 {
-    let args: Vec<String> = std::env::args().collect();
+    let mut args: Vec<String> = std::env::args().collect();
+    // a trailing "collide" makes every worker draw identical random bytes (ties between workers)
+    if args.last().map(|a| a == "collide").unwrap_or(false) {
+        args.pop();
+        hbs_lms::verif_hooks::sched::set_rng_colliding(true);
+    }
     let fx = Arc::new(fixture(&args[2..]));
     match args[1].as_str() {
         "explore" => {
